@@ -30,7 +30,7 @@ func fixedCacheCases() []*CacheCase {
 	}
 }
 
-var fixedPMNames = []string{"tx-batch-of-8", "orphans-5-9-12-then-7", "all-confirms-before-blocks-reverse", "every-block-twice-in-order", "two-orphan-islands-filled-downwards"}
+var fixedPMNames = []string{"tx-batch-of-8", "orphans-5-9-12-then-7", "all-confirms-before-blocks-reverse", "every-block-twice-in-order", "two-orphan-islands-filled-downwards", "remotes-join-and-leave-while-syncing"}
 
 func seq(lo, hi int) []int {
 	var out []int
@@ -54,6 +54,8 @@ func fixedPMCase(k, try int, scratch string) (*PMCase, error) {
 		nDep, n = 5, 8
 	case 3:
 		nDep, n = 4, 6
+	case 5:
+		nDep, n = 3, 10
 	}
 	wcfg := fx.WorldCfg{Deputies: nDep, Users: 6, SlotMs: 10000}
 	w := fx.NewWorld(wcfg)
@@ -156,6 +158,35 @@ func fixedPMCase(k, try int, scratch string) (*PMCase, error) {
 		for h := 1; h <= n; h++ {
 			cs.Steps = append(cs.Steps, confirmsOf(h%2, h)...)
 		}
+	case 5: // remotes announce, join and leave while blocks become stable and transactions are relayed (the peer set changes under the loops that read it)
+		cs.Peers = []PeerSpec{{Deputy: 0}, {Deputy: -1, Announce: true}, {Deputy: 1, Late: true, Announce: true}, {Deputy: -1, Late: true}}
+		cs.DeferServe = true
+		for i := 0; i < n; i++ {
+			cs.Twin = append(cs.Twin, all(i))
+		}
+		for i := 0; i < 9; i++ {
+			cs.Txs = append(cs.Txs, TxSpec{Kind: "transfer", From: i % 6, To: (i + 2) % 6, Amount: int64(700 + i), Life: 700 + i})
+		}
+		round := func(peer int, h int, tx int) {
+			cs.Steps = append(cs.Steps, blk(peer, h))
+			cs.Steps = append(cs.Steps, confirmsOf(peer, h)...)
+			cs.Steps = append(cs.Steps, Step{Kind: "txs", Peer: peer, Txs: []int{tx}}, Step{Kind: "pause", Ms: 30})
+		}
+		round(0, 1, 0)
+		round(1, 2, 1)
+		cs.Steps = append(cs.Steps, Step{Kind: "join", Peer: 2})
+		round(2, 3, 2)
+		round(0, 4, 3)
+		cs.Steps = append(cs.Steps, Step{Kind: "join", Peer: 3})
+		round(3, 5, 4)
+		cs.Steps = append(cs.Steps, Step{Kind: "leave", Peer: 2}, Step{Kind: "pause", Ms: 30})
+		round(1, 6, 5)
+		round(3, 7, 6)
+		cs.Steps = append(cs.Steps, Step{Kind: "leave", Peer: 3}, Step{Kind: "pause", Ms: 30})
+		round(0, 8, 7)
+		round(1, 10, 8)
+		cs.Steps = append(cs.Steps, blk(0, 9))
+		cs.Steps = append(cs.Steps, confirmsOf(0, 9)...)
 	}
 	return cs, nil
 }
